@@ -88,8 +88,9 @@ ADDED = {
  "C12": " A third of the states live in an orphaned process tree (top re-parented to pid 1) whose root process carries a generated name (leading blanks/tabs, parentheses, status-key look-alikes); errno on entry is varied. timestamp_ms / timestamp_us are bracketed between two microsecond clock readings. A secure-execution arm starts a set-uid-root copy of the in-vitro driver from uid 12345 (AT_SECURE=1, ruid != euid) and checks the env / id sources there. A lookup-fault arm (in vitro) asks the name sources with a full descriptor table and with passwd/group entries larger than the lookup buffer: an error text is accepted, a wrong name or the no-such-id placeholder is not.",
  "C13": " The probe also drives each registry's lookup-by-name functions with every name of the all-on build, each proper prefix, the empty name and extended/upper-case spellings (about 1 280 candidates per configuration): an absent name must be unknown, a present one must resolve to its own index. The end-to-end builds (one of them without devlog, the registry's first output) also run the reduced production library through snoopy.ini: every remaining output must receive the record when named, every remaining filter must decide as its name says.",
  "C05": " Path templates also run under a lowered datasource_message_max_length with a source output longer than it, spread over pre-created directory levels (the template has its own fixed limit).",
+ "C07": " A third case class gives filter_chain twice (first value empty, passing, dropping or unknown): only the last value decides.",
  "C14": " The errno the caller holds on entry (0, ERANGE, EINVAL, EINTR, EOVERFLOW, ENOENT) is varied per case.",
- "C16": " Callers start with blocked / ignored signals (SIGPIPE among them) and a stale errno, and the first call of a run is judged as well (all but the heap). A fork arm on the controlled scheduler parks another thread at every stop point of a wrapped call, forks, and the child - allocator monitor loaded - must track its own thread only, keep no configuration string of the vanished threads after its own complete call, and free only live blocks (runs also start from an absent / unreadable / directory snoopy.ini; the lock depth of the calling thread is judged after the call has returned as well as at the real exec; formats drive data sources into their error paths; stop points include the instant right after every free() the library issues; the allocator monitor counts frees of blocks that are not live, in all arms).",
+ "C16": " The compared state includes the set of pending signals; some runs have stdout / stderr as a pipe whose reader is gone with SIGPIPE blocked by the caller. Callers start with blocked / ignored signals (SIGPIPE among them) and a stale errno, and the first call of a run is judged as well (all but the heap). A fork arm on the controlled scheduler parks another thread at every stop point of a wrapped call, forks, and the child - allocator monitor loaded - must track its own thread only, keep no configuration string of the vanished threads after its own complete call, and free only live blocks (runs also start from an absent / unreadable / directory snoopy.ini; the lock depth of the calling thread is judged after the call has returned as well as at the real exec; formats drive data sources into their error paths; stop points include the instant right after every free() the library issues; the allocator monitor counts frees of blocks that are not live, in all arms).",
  "C17": " Three traced cases run on a tmpfs that fills up mid-record (short write, then ENOSPC): no truncation, no second attempt, bytes in front unchanged. A writer process dying in the stress arm is a violation.",
  "C18": " A third of the inputs come with a left-over ld.so.preload.snoopy-tmp of an earlier killed run (longer than the result, or very short); the alphabet (20 line kinds) includes entries and comments with % conversions; files of 10 KiB to 200 KiB (4 MiB in thorough) with the entry absent / first / middle / last; a fifth of the commands is started without stdout / stderr / stdin, and for an eighth of the inputs ld.so.preload is a symbolic link.",
  "C19": " Same left-over temporary files and % lines as C18.",
